@@ -226,6 +226,19 @@ func selfTest(c *hx.Ctx) {
 	if n != 1 {
 		fail("append into shared spare capacity vs element read: %d race pairs reported, want 1", n)
 	}
+	// 5c. the same through AppendPre, the rewrite used where an appended value's type is only assignable
+	// to the element type (a concrete value into a slice of an interface type)
+	sliceRaceIface := func(st *selfState) {
+		back := make([]interface{}, 1, 2)
+		long := back[:2]
+		spawn2(st,
+			func() { _ = append(vsched.AppendPre(back, 900016, 1), 7) },
+			func() { _ = vsched.RE(long, 1, 900017) })
+	}
+	_, _, n, _ = selfExplore("slice-race-iface", sliceRaceIface, 0, false, true, true)
+	if n != 1 {
+		fail("append (AppendPre form) into shared spare capacity vs element read: %d race pairs reported, want 1", n)
+	}
 	sliceOK := func(st *selfState) {
 		s := make([]int, 2)
 		spawn2(st,
@@ -515,8 +528,8 @@ func selfTest(c *hx.Ctx) {
 		}
 	}
 	c.Res.Execs += ep + en
-	c.Res.AddExtra("cases", 32)
-	c.Res.Sample("32 known-answer scenarios: TryLock, sync.Map publication, sync.Pool shim, atomics (publication / CAS spin lock), DeepClone backing-array sharing, RWMutex writer preference (recursive read lock deadlock / plain), slice-element race / no race, condition variable (flag under lock / lost signal), Once, channel ping / no sender / full buffer / select / lost wake-up, lost update (bounds 0/1, delay 1), locked update, AB-BA deadlock, WaitGroup negative / stuck, fair spin loop, endless spin loop, race monitor positive / negative, pruning vs no pruning")
+	c.Res.AddExtra("cases", 33)
+	c.Res.Sample("33 known-answer scenarios: TryLock, sync.Map publication, sync.Pool shim, atomics (publication / CAS spin lock), DeepClone backing-array sharing, RWMutex writer preference (recursive read lock deadlock / plain), slice-element race / no race (Append and AppendPre forms), condition variable (flag under lock / lost signal), Once, channel ping / no sender / full buffer / select / lost wake-up, lost update (bounds 0/1, delay 1), locked update, AB-BA deadlock, WaitGroup negative / stuck, fair spin loop, endless spin loop, race monitor positive / negative, pruning vs no pruning")
 }
 
 func init() {
